@@ -24,14 +24,16 @@ from . import dbcommon as C
 
 ID = "C07"
 LEAN_MODULES = ["SqliteDissect.Properties.C07"]
-RULE = ("CREATE TABLE statements from a grammar generator (every identifier quoting style, tabs/newlines/comments in "
+RULE = ("CREATE TABLE statements from a grammar generator (every identifier quoting style, the style's own quote character "
+        "doubled inside names, tabs/newlines/comments - those that start with /*/ included - in "
         "every gap, type names with arguments, column and table constraints, DEFAULT/CHECK expressions with commas, "
         "parentheses, quotes, slashes) are executed by SQLite 3.40.1; the text SQLite stored in sqlite_schema is parsed "
         "by the real OrdinaryTableRow (stub version interface; a sample also through Database on files in all three "
         "encodings) and by the Lean model (ddl.table), and compared with PRAGMA table_xinfo (names, order), with the "
         "affinity SQLite assigns (CREATE TABLE AS SELECT echo) and PRAGMA table_list (WITHOUT ROWID). Scalar "
         "mechanisms (closing parenthesis, comment parsing, name extraction, ColumnDefinition, affinity) are compared "
-        "on mutated strings as well. DDL histories inside a WAL: entries per version vs sqlite_master after that "
+        "on mutated strings as well. CREATE INDEX rows whose index and table names use every quoting style (doubled quote "
+        "characters included) are read through Database and must be accepted with the rows of sqlite_master. DDL histories inside a WAL: entries per version vs sqlite_master after that "
         "commit, schema timeline vs the commit that made each change. A statement on which the implementation "
         "differs from SQLite is reduced (parts removed, gaps/identifiers/expressions replaced by clean defaults) while it "
         "keeps failing the same way; if that minimal statement is not explained by a listed finding the reduction "
@@ -126,9 +128,9 @@ def impl_comment(s):
     return guarded(f)
 
 
-def impl_name(s):
+def impl_name(s, row_type="table"):
     def f():
-        n, r = MasterSchemaRow._get_master_schema_row_name_and_remaining_sql("table", "n", "sql", s)
+        n, r = MasterSchemaRow._get_master_schema_row_name_and_remaining_sql(row_type, "n", "sql", s)
         return f"ok {hx(n.encode('utf-8'))} {hx(r.encode('utf-8'))}"
     return guarded(f)
 
@@ -349,7 +351,7 @@ def check_constants(ctx):
 ALPH = list("ab1_ INT()(),,''\"\"``[]--/**/\n\t.-/ xTEXTchar") + ["PRIMARY KEY", "NOT NULL", "DEFAULT", "CHECK", "UNIQUE",
                                                                  "REFERENCES", "CONSTRAINT", "FOREIGN", "COLLATE", "WITHOUT ROWID",
                                                                  "--c\n", "/*c*/", "é", " ", "\x1c", "  ", "AS", "VARCHAR(10)",
-                                                                 "€", "ß"]
+                                                                 "€", "ß", '""', "''", "``", "/*/", "*/", "/*"]
 
 
 def mutate(r, s, n=None):
@@ -369,12 +371,18 @@ def mutate(r, s, n=None):
 SEED_COLS = ["a INT", "a", "\"a b\" VARCHAR(10) NOT NULL", "[a] TEXT DEFAULT 'x,y'", "`a` UNSIGNED BIG INT PRIMARY KEY",
              "'a' DOUBLE PRECISION", "a DECIMAL (10, 5) CHECK (a > (1))", "a /* c */ INT -- d\n", "a INT DEFAULT -1",
              "a\tINT", "a INT REFERENCES o(x)", "a NATIVE CHARACTER(70) COLLATE NOCASE", "a N", "a  INT  NOT  NULL",
-             "a VARCHAR(10)NOT NULL", "a INT GENERATED ALWAYS AS (1) VIRTUAL", "primaryEmail TEXT", "a NOT_SPECIFIED"]
+             "a VARCHAR(10)NOT NULL", "a INT GENERATED ALWAYS AS (1) VIRTUAL", "primaryEmail TEXT", "a NOT_SPECIFIED",
+             '"x""y" INT', "'x''y' TEXT", "`x``y` REAL", '"""" INT', '"a"" INT', '"a""', '"""' , "'a", "`a``",
+             '"a\nb" INT', '"a""b""c', '[x""y] INT', "[a\nb] INT", "a /*/ c */ INT", "a /*/ INT", "a /*/*/ INT", "a/*/*/INT", "a INT /*/"]
 SEED_PAREN = ["(a)", "(a(b)c)", "('x)')", "(\"x)\")", "(`)`)", "(--)\n)", "(/*)*/)", "(a-b)", "(a/*c*/)", "((())())", "(a", "()",
-              "(a)b)", "(-", "(/", "(a/b)", "([)])", "('it''s')"]
-SEED_COMMENT = ["-- c\nrest", "/* c */rest", "--", "/*", "/*/", "--\n", "/**/", "- - c", "/* a /* b */ c */", "x"]
+              "(a)b)", "(-", "(/", "(a/b)", "([)])", "('it''s')", "(a /*/ c */)", "(/*/)", "(/*/*/)", "(/*/ ) */)", "(/*/)*/)",
+              "(a /*/ b) /*/*/)", "(/***/)", "(/*/**/)"]
+SEED_COMMENT = ["-- c\nrest", "/* c */rest", "--", "/*", "/*/", "--\n", "/**/", "- - c", "/* a /* b */ c */", "x",
+                "/*/ c */rest", "/*/*/rest", "/*/*", "/***/", "/*/ */ */", "/**/*/"]
 SEED_NAME = ["t(a)", "t (a)", "\"t t\"(a)", "[t](a)", "`t`(a)", "'t'(a)", "t\n(a)", "t--c\n(a)", "t/*c*/(a)", "t\t(a)", "t.u(a)",
-             "t", "", "\"t", "[t", "t-1", "t/2", "\"t\"\"u\"(a)", "[[t]](a)", "``(a)"]
+             "t", "", "\"t", "[t", "t-1", "t/2", "\"t\"\"u\"(a)", "[[t]](a)", "``(a)", "[a\nb](a)",
+             '""""(a)', '"a""', '"""', '"a""b', "'it''s'(a)", "`a``b`(a)", "''''", "'a\nb'(a)", '"a"b"(a)',
+             '"a""b""c', '"t""""u" (a)', "'t' ON u", '`i``x` ON "t""u"(a)']
 
 
 def scalar_ops(ctx):
@@ -395,7 +403,8 @@ def scalar_ops(ctx):
     cases = []
     for _ in range(n // 2):
         s = mutate(r, r.choice(SEED_NAME), r.choice([0, 1, 2]))
-        cases.append((f"ddl.name {hx(s.encode())}", impl_name(s)))
+        # (the same function reads table names and index names; the row type only selects the wording of its errors)
+        cases.append((f"ddl.name {hx(s.encode())}", impl_name(s, r.choice(["table", "table", "index"]))))
     ctx.differential(cases, "ddl.name")
     cases = []
     for _ in range(n * 2):
@@ -558,6 +567,9 @@ def compare_entries(ctx, entries, oracle, case, what="schema entries differ from
 EXTRA_DDL = [
     "CREATE INDEX i1 ON {t} ({c})",
     "CREATE UNIQUE INDEX \"i 2\" ON {t} ({c}) WHERE {c} IS NOT NULL",
+    "CREATE INDEX \"i\"\"3\" ON {t} ({c})",
+    "CREATE INDEX `i``4` ON {t} ({c})",
+    "CREATE INDEX 'i''5' ON {t} ({c})",
     "CREATE VIEW v1 AS SELECT {c} FROM {t}",
     "CREATE VIEW [v 2] (x) AS SELECT {c} /* c */ FROM {t} -- d\n",
     "CREATE TRIGGER tr1 AFTER INSERT ON {t} BEGIN SELECT 1; END",
@@ -659,6 +671,99 @@ def culprit_tags(c):
     if not c:
         return set()
     return {"row:" + c["type"]}
+
+
+# ---------------------------------------------------------------------- index / table names in CREATE INDEX rows
+NAME_TEXTS = ["i", "t1", "Name", "a b", "a,b", "a(b", "a)b", "a.b", "é", "1a", "select", "on", "a;b", "x'y", 'x"y', "x`y", "x[y"]
+
+
+def random_name(r, used):
+    """an identifier in a random quoting style; about a third contain the quote character of their own style"""
+    for _ in range(50):
+        style = r.choice(["plain", "dq", "dq", "sq", "bt", "br"])
+        if style == "plain":
+            i = G.ident(r.choice(["i", "t1", "Name", "x_1", "k", "é"]) + str(len(used)))
+        elif style != "br" and r.random() < 0.5:
+            i = G.ident(r.choice(G.DOUBLED).replace("Q", G.QUOTE[style][1]), style)
+        else:
+            i = G.ident(r.choice(NAME_TEXTS), style)
+        if style == "br" and "]" in i["t"]:
+            continue
+        key = ascii_lower(i["t"])
+        if key in used or key.startswith("sqlite_") or i["t"].strip() != i["t"] or i["t"] == "":
+            continue
+        used.add(key)
+        return i
+    i = G.ident(f"n{len(used)}")
+    used.add(i["t"])
+    return i
+
+
+def index_section(ctx, n=None):
+    """IndexRow reads the index name and the table name of CREATE INDEX with the same function as table names:
+    databases whose tables and indexes carry names in every quoting style (doubled quote characters included) must be
+    accepted with the rows of sqlite_master (the row class compares the parsed names with the name columns itself)"""
+    r = ctx.rng
+    sc = C.Scratch()
+    n = n or (60 if ctx.thorough() else 12)
+    try:
+        for i in range(n):
+            path = sc.path(f"x{i}.db")
+            con = sqlite3.connect(path, isolation_level=None)
+            con.execute(f"PRAGMA encoding='{F.ENCODINGS[i % 3]}'")
+            used = set()
+            stmts = []
+            for _ in range(r.randint(1, 3)):
+                tn = random_name(r, used)
+                cn = random_name(r, set())
+                stmts.append(f"CREATE TABLE {G.ident_text(tn)} ({G.ident_text(cn)} INT, other TEXT)")
+                for _ in range(r.randint(1, 2)):
+                    xn = random_name(r, used)
+                    sep1, sep2 = r.choice([" ", " ", "\n", "\t"]), r.choice([" ", " ", "\n", ""])
+                    stmts.append(f"CREATE {r.choice(['', 'UNIQUE '])}INDEX {G.ident_text(xn)}{sep1}ON {G.ident_text(tn)}{sep2}({G.ident_text(cn)})")
+            done = []
+            for st in stmts:
+                try:
+                    con.execute(st)
+                    done.append(st)
+                except sqlite3.Error:
+                    ctx.branch("index:sqlite-rejects")
+            con.close()
+            tags = set()
+            for st in done:
+                for q in "\"'`":
+                    if q + q in st:
+                        tags.add("name:doubled-quote")
+            case = {"statements": done, "encoding": F.ENCODINGS[i % 3], "tags": sorted(tags)}
+            oracle = schema_oracle(path)
+            n0 = len(ctx.oracle_failures)
+            for (ty, name, tbl, root, sql) in oracle:
+                if ty == "table":
+                    # the table rows through the model as well
+                    if in_model_text(sql):
+                        ctx.differential([(op_table(sql, name, tbl), impl_table(sql, name, tbl))], "ddl.table/index-db")
+                if ty == "index" and sql:
+                    ctx.branch("index:row")
+                    if any(q + q in sql for q in "\"'`"):
+                        ctx.branch("index:doubled-quote")
+            _drop_outside(ctx, "ddl.table/index-db")
+            impl, db, exc = C.compare_db_dump(ctx, path, "db.open", with_trees=False)
+            if db is None:
+                ctx.oracle_fail("db-rejected", f"a database written by SQLite is rejected because of a schema row ({impl})",
+                                case, impl, "accepted")
+            else:
+                compare_entries(ctx, db.master_schema.master_schema_entries, oracle, case)
+                for e in db.master_schema.master_schema_entries:
+                    if isinstance(e, OrdinaryTableRow):
+                        ctx.evals += 1
+                        want = [x[0] for x in sqlite3.connect(path).execute("SELECT name FROM pragma_table_xinfo(?)", (e.name,))]
+                        got = [c.column_name for c in e.column_definitions]
+                        ctx.mark(("index-db-cols", e.sql))
+                        if got != want:
+                            ctx.oracle_fail("columns", "column names/order differ from PRAGMA table_xinfo", dict(case, sql=e.sql), got, want)
+            C.keep_failing_files(ctx, n0, path)
+    finally:
+        sc.close()
 
 
 # ---------------------------------------------------------------------- histories
@@ -873,6 +978,7 @@ def run(ctx):
     ddl_section(ctx)
     mutated_tables(ctx)
     database_section(ctx)
+    index_section(ctx)
     fixed_history(ctx)
     history_section(ctx)
 
@@ -884,6 +990,7 @@ def search(ctx, broken):
     affinity_section(ctx)
     ddl_section(ctx, 20000)
     database_section(ctx, 100)
+    index_section(ctx, 60)
     history_section(ctx, 30)
 
 
@@ -950,13 +1057,12 @@ def _only(f, kinds, required_prefixes, allowed_prefixes=()):
 _ANYKIND = ("rejected", "columns", "affinity", "without-rowid")
 
 # Matchers exist only for the findings that are still open.  The minimal statements of the repaired ones
-# (C07-01, -04, -05, -06, -08, -10, -11, -12, -14, -15) stay in corpus/C07: if one of them fails again nothing here
-# matches it and the run reports a VIOLATION.
+# (C07-01, -02, -04, -05, -06, -07, -08, -10, -11, -12, -14, -15) stay in corpus/C07: if one of them fails again nothing
+# here matches it and the run reports a VIOLATION.
 MATCHERS = {
-    "c07_doubled_quote": lambda f: _only(f, _ANYKIND, ["ident:doubled-quote"]) or _only(f, _ANYKIND, ["table-ident:doubled-quote"]),
     "c07_strict": lambda f: _only(f, ("rejected",), ["trailer:strict"]),
-    "c07_slash_star_slash": lambda f: _only(f, _ANYKIND, ["cmt:slash-star-slash"], ["cmt:", "cmtonly:", "cmtadj:", "cons:null", "cons:generated", "trailer:strict"]),
     "c07_slash_dashdash_in_expr": lambda f: (_only(f, ("rejected",), ["expr:slash"], ["expr:"]) or _only(f, ("rejected",), ["expr:dashdash"], ["expr:"])
                                              or _only(f, ("rejected",), ["ident:comment-chars"]) or _only(f, ("rejected",), ["table-ident:comment-chars"])),
+    "c07_bracket_newline": lambda f: _only(f, ("rejected",), ["ident:newline-in-bracket"]) or _only(f, ("rejected",), ["table-ident:newline-in-bracket"]),
     "c07_ident_whitespace": lambda f: _only(f, _ANYKIND, ["ident:whitespace"]) or _only(f, _ANYKIND, ["table-ident:whitespace"]),
 }
